@@ -181,3 +181,50 @@ impl SystemInterface for StubInterface {
         0
     }
 }
+
+/// Verification hooks (cargo feature `verif-hooks`, off by default): a VM without builtins and
+/// prelude, raw access to registers, heap and stack, and single-stepping. Used only by the
+/// checks under /verif to replay solver counterexamples against the real code. Add-only.
+#[cfg(feature = "verif-hooks")]
+impl Vm {
+    pub fn verif_bare(heap_chunk: usize) -> Vm {
+        Vm {
+            heap: Heap::new(heap_chunk),
+            ip: (usize::MAX, 0),
+            stack: Stack::new(),
+            globenv: GlobalEnvironment::new(),
+            ep: usize::MAX,
+            acc: VCell::undefined(),
+            bp: 0,
+            sys: Box::new(StubInterface {}),
+            last_stacktrace: None,
+        }
+    }
+
+    pub fn verif_heap(&mut self) -> &mut Heap {
+        &mut self.heap
+    }
+
+    pub fn verif_globenv(&mut self) -> &mut GlobalEnvironment {
+        &mut self.globenv
+    }
+
+    pub fn verif_set_stack(&mut self, stack: Stack) {
+        self.stack = stack;
+    }
+
+    pub fn verif_stack(&self) -> &Stack {
+        &self.stack
+    }
+
+    pub fn verif_set_regs(&mut self, acc: VCell, ep: HeapRef, ip: (HeapRef, usize), bp: usize) {
+        self.acc = acc;
+        self.ep = ep;
+        self.ip = ip;
+        self.bp = bp;
+    }
+
+    pub fn verif_regs(&self) -> (VCell, HeapRef, (HeapRef, usize), usize) {
+        (self.acc.clone(), self.ep, self.ip, self.bp)
+    }
+}
